@@ -128,7 +128,9 @@ class FileResolver:
                     continue
                 if self._is_gitignored(resolved_current / filename, False, gitignore_specs):
                     continue
-                if tool_ignore and tool_ignore.match_file(filename):
+                # Like directories, files are matched by their path below the walk root, so that
+                # rules with a directory part ("docs/private.md", "/top.md") work.
+                if tool_ignore and tool_ignore.match_file((rel_to_root / filename).as_posix()):
                     continue
                 yield filepath
 
@@ -141,11 +143,10 @@ class FileResolver:
         walk_root: Path | None = None,
     ) -> bool:
         """Check if a directory should be pruned during traversal."""
-        dir_with_slash = dirname + "/"
-        rel_with_slash = str(rel_path) + "/"
+        # The path below the walk root: a pattern without a directory part ("build/") matches it
+        # at any depth, an anchored one ("/build/", "docs/api/") only where it says.
+        rel_with_slash = rel_path.as_posix() + "/"
 
-        if self._exclude_spec.match_file(dir_with_slash):
-            return True
         if self._exclude_spec.match_file(rel_with_slash):
             return True
 
@@ -155,8 +156,6 @@ class FileResolver:
             if self._is_gitignored(current_dir.resolve() / dirname, True, chain):
                 return True
 
-        if tool_ignore and tool_ignore.match_file(dir_with_slash):
-            return True
         if tool_ignore and tool_ignore.match_file(rel_with_slash):
             return True
 
